@@ -226,6 +226,11 @@ def run(ctx, chk):
             chk.ok('C09.7', 'run_frame', sample={'callees': callees})
         else:
             chk.fail('C09.7', 'run_frame', 'run_frame calls %s' % callees, 'src/emulator.rs', prog.fns[rf]['line'])
+    # ---- rule 9: cycles pending in Registers.cycles (the 5 of a dispatch) survive the entry into translated code
+    chk.rule('C09.9', 'D', 'the cycle counter survives the call frame of translated code: the entry trampoline loads '
+             'Registers.cycles, the exit stores it back (a dispatch leaves its 5 cycles there for the next step)', floor=2)
+    from .. import jitsem
+    jitsem.apply_frame_rule(ctx, chk, 'C09.9', lambda c: c in ('load:cycles', 'store:cycles'))
     chk.assumptions += ['run_frame termination within two frame periods is argued from rules 2, 6 and C14 on paper; the bound '
                         'itself is a liveness statement and is not decided',
                         'usize multiplication by 4 does not overflow (cycle counts are drained every step)']
